@@ -571,10 +571,11 @@ impl<Backing : AsRef<[u32]> + AsMut<[u32]>> DrawTarget<Backing> {
         let clip = match self.clip_stack.last() {
             Some(Clip {
                      rect: current_clip,
-                     mask: _,
+                     mask: current_mask,
                  }) => Clip {
                 rect: current_clip.intersection_unchecked(&rect),
-                mask: None,
+                // a clip path that is already in force stays in force
+                mask: current_mask.clone(),
             },
             _ => Clip {
                 rect: rect,
